@@ -195,6 +195,7 @@ type z3Scenario struct {
 	Cancel     bool     `json:"cancel,omitempty"`
 	CancelLate bool     `json:"cancel_late,omitempty"` // the client goes away exactly before some request or body piece (class cancel)
 	Prior      bool     `json:"prior,omitempty"`
+	WrongSize  bool     `json:"wrong_size,omitempty"` // the served manifest misstates the size of the first layer, in every attempt
 	Lost       bool     `json:"lost,omitempty"` // the same tag is in the store already but the file of its first layer is gone
 	Dup        bool     `json:"dup,omitempty"`         // the manifest names the first layer's digest twice (same bytes under two media types)
 	Second     bool     `json:"second,omitempty"`      // a second concurrent pull of a model sharing the layer
@@ -250,6 +251,12 @@ func z3Body(sc z3Scenario) func() {
 		served := w.publish("lib/model:tag", sc.Layers, sc.Config, 3)
 		if sc.Dup {
 			served.Layers = append(served.Layers, ztLayer{"application/vnd.ollama.image.license", served.Layers[0].Digest, served.Layers[0].Size})
+			b, _ := json.Marshal(served)
+			srv.Manifests["lib/model:tag"] = b
+		}
+		if sc.WrongSize {
+			// the registry's manifest states one byte too many for the first layer, and goes on doing so
+			served.Layers[0].Size++
 			b, _ := json.Marshal(served)
 			srv.Manifests["lib/model:tag"] = b
 		}
@@ -330,7 +337,7 @@ func z3Body(sc z3Scenario) func() {
 				}
 			}
 			err := PullModel(ctx, ztName, &registryOptions{}, func(api.ProgressResponse) {})
-			for retry := 0; clean && err != nil && retry < 2; retry++ {
+			for retry := 0; clean && err != nil && retry < 2 && !sc.WrongSize; retry++ {
 				// "a later retry can still succeed": once everything left over from the earlier attempts has
 				// settled, a fault-free pull must succeed - possibly the one after next: a pull issued while a
 				// cancelled download is still winding down joins it and shares its error, and a pull that completes
@@ -380,7 +387,7 @@ func z3Body(sc z3Scenario) func() {
 						mcrt.Fail("C03: failed-pull-garbage-manifest: the name resolves to a manifest that is neither the old nor the new one")
 					}
 				}
-				if clean {
+				if clean && !sc.WrongSize { // (a manifest that misstates a size can never be pulled: every attempt has to fail)
 					mcrt.Fail("C03: clean-retry-fails: a fault-free pull after %d failed/interrupted attempt(s) fails: %v", sc.Faulty, err)
 				}
 			}
@@ -406,6 +413,7 @@ func z3Scenarios(thorough bool) []z3Scenario {
 		{Name: "three-parts-pairs", Layers: []int{10}, Faults: []string{"500", "truncate"}, Faulty: 1},
 		{Name: "three-parts-cancel", Layers: []int{10}, Cancel: true, Faulty: 1},
 		{Name: "challenges", Layers: []int{3}, Challenge: adversarial, Faulty: 1},
+		{Name: "wrong-size-persists", Layers: []int{10, 3}, WrongSize: true, Faulty: 2, Cap: 1},
 		{Name: "repull-lost-layer", Layers: []int{10, 3}, Lost: true, Faults: []string{"500"}, Faulty: 1, Cap: 1},
 		{Name: "replace-tag", Layers: []int{10, 3}, Prior: true, Faults: []string{"500", "truncate", "flip"}, Faulty: 1, Cap: 1},
 		{Name: "shared-layer", Layers: []int{10}, Second: true, Faults: []string{"500", "truncate"}, Faulty: 1, Cap: 1},
